@@ -185,6 +185,9 @@ def c01(run, tier):
                 "solutions up to the depth bound (goals with an unknown), checking ModelClosed / ModelSupported; both real solvers (fresh instance per goal) "
                 "are judged: Unique / None on closed goals must equal the truth; on open goals None requires an empty solution set, a Unique substitution "
                 "must have exactly the solutions as its instances (within the bound), definite guidance must cover every solution; "
+                "a second family (ImplMC.tla): coherent programs over two closed and two generic structs, 3..7 impls with up to two where-clauses, "
+                "blanket impls: 10 closed goals against the least fixed point and 14 goals with an unknown against their solutions among the closed "
+                "types of depth <= 3 (None needs an empty set, a Unique / definite pattern must cover every solution); "
                 "non-trivial = the program has a generic impl or a where-clause; distinct = (program, goal, solver)")
     run.assumptions = mini_assume()
     n = 1500 if tier == "thorough" else 160
@@ -207,6 +210,10 @@ def c01(run, tier):
                 if nontrivial and not rec["closed"] and rec["sols"]:
                     run.sample({"program": text[40:], "goal": rec["goal"], "solver": sname, "solutions": [vty(s["d"], s["b"]) for s in rec["sols"]][:6], "impl": r.get("text")}, cap=6)
     run.extra["programs"] = len(byprog)
+    # coherent programs over two generic structs (ImplMC.tla): closed goals against the least fixed point, goals with an unknown against their
+    # solutions among the closed types of depth <= 3
+    import props_order
+    props_order.order_generic(run, tier, nperm=1, n=(200 if tier == "quick" else 2500), tag="C01impl", salt=19)
     # structured propositional programs: the truth of every atom comes from the ground engine model's meaning (SLGGroundMC, TrueAtoms);
     # conjunctions with negation of closed atoms are judged compositionally
     import ground
@@ -279,7 +286,9 @@ def c03(run, tier):
     run.rule = ("for each sampled program and each goal with an unknown, TLC gives the complete solution set up to the depth bound; the real SLG solve_multiple "
                 "stream (up to 12 answers) is judged: every Definite answer's instances are solutions, no answer is yielded twice, if the solution set is finite "
                 "(no solution at the two largest depths) and the stream ended by itself every solution is an instance of some answer, and the `more` flag of "
-                "each answer tells whether another answer followed; non-trivial = the solution set is not empty; distinct = (program, goal)")
+                "each answer tells whether another answer followed; second family (ImplMC.tla, coherent programs over two generic structs): streams of 14 goals "
+                "with an unknown (up to 40 answers) judged the same way against the solutions among the closed types of depth <= 3; "
+                "non-trivial = the solution set is not empty; distinct = (program, goal)")
     run.assumptions = mini_assume() + ["streams are cut after 12 answers; completeness is judged whenever the stream ends by itself"]
     n = 2500 if tier == "thorough" else 500
     byprog = model_check(run, sample_programs(n, random.Random(seed() * 13 + 5), False), "C03")
@@ -326,6 +335,8 @@ def c03(run, tier):
             if not bad: run.traces += 1
             if sols: run.sample({"program": text[40:], "goal": rec["goal"], "solutions": [vty(s["d"], s["b"]) for s in sols][:6], "stream": [[it["kind"], it["text"], it["more"]] for it in items][:6]}, cap=6)
     run.extra["programs"] = len(byprog)
+    import props_order
+    props_order.streams_generic(run, tier)
 
 # ------------------------------------------------------------------------------------ C04 / C28
 def mask_lts(t):
